@@ -75,6 +75,9 @@ pub enum Node {
     Penalty(i32),
     /// A discretionary followed by its `replace` nodes (replace_count = their number).
     Disc { pre: Vec<Elem>, post: Vec<Elem>, replace: Vec<Elem> },
+    /// A whatsit node (TeX §1360: invisible to hpack). Outside the property's literal
+    /// quantifier; generated in one list mode only.
+    Whatsit(u8),
 }
 
 #[derive(Clone, Copy, Debug, PartialEq, Eq, Serialize, Deserialize)]
@@ -95,12 +98,21 @@ pub struct TargetSpec {
     pub sign: i8,
     pub off: i32,
     pub exact: bool,
+    /// `Some(w)`: the requested dimension itself (`to w` / `spread w`), independent of the
+    /// list — huge targets such as `\hbox to\maxdimen`. Overrides base/sign/off.
+    #[serde(default)]
+    pub abs: Option<i32>,
 }
 
 #[derive(Clone, Debug, PartialEq, Eq, Serialize, Deserialize)]
 pub struct HpackCase {
     /// Synthetic font metrics: glyph i is character `'a'+i` of font `i % 3`, [width, height, depth].
     pub glyphs: Vec<[i32; 3]>,
+    /// Partial glyph metrics: bit 0 of entry i = the font has no height for glyph i, bit 1 =
+    /// no depth (`FontRepo::height`/`depth` return `None`; a tfm height/depth index beyond
+    /// its table). Missing entries = complete metrics.
+    #[serde(default)]
+    pub missing: Vec<u8>,
     /// Magnitudes referred to by `Amt::Pos`/`Amt::Neg`.
     pub palette: Vec<i32>,
     pub nodes: Vec<Node>,
@@ -117,16 +129,23 @@ fn glyph_id(i: u8, n: usize) -> (char, u32) {
 
 struct SynthRepo {
     glyphs: Vec<[i32; 3]>,
+    missing: Vec<u8>,
 }
 
 impl SynthRepo {
-    fn get(&self, c: char, font: u32) -> Option<[i32; 3]> {
+    fn index(&self, c: char, font: u32) -> Option<usize> {
         let i = (c as u32).checked_sub('a' as u32)? as usize;
         if i < self.glyphs.len() && (i % 3) as u32 == font {
-            Some(self.glyphs[i])
+            Some(i)
         } else {
             None
         }
+    }
+    fn get(&self, c: char, font: u32) -> Option<[i32; 3]> {
+        self.index(c, font).map(|i| self.glyphs[i])
+    }
+    fn lacks(&self, c: char, font: u32, bit: u8) -> bool {
+        self.index(c, font).map(|i| self.missing.get(i).copied().unwrap_or(0) & bit != 0).unwrap_or(false)
     }
 }
 
@@ -137,9 +156,15 @@ impl boxworks::FontRepo for SynthRepo {
         self.get(c, font).map(|g| Scaled(g[0]))
     }
     fn height(&self, c: char, font: u32) -> Option<Scaled> {
+        if self.lacks(c, font, 1) {
+            return None;
+        }
         self.get(c, font).map(|g| Scaled(g[1]))
     }
     fn depth(&self, c: char, font: u32) -> Option<Scaled> {
+        if self.lacks(c, font, 2) {
+            return None;
+        }
         self.get(c, font).map(|g| Scaled(g[2]))
     }
 }
@@ -234,13 +259,21 @@ fn elem_to_ds(e: &Elem, n_glyphs: usize) -> ds::DiscretionaryElem {
     }
 }
 
+/// All six kinds (TeX §149 subtypes). 0..=2 keep their meaning, so old replay files load unchanged.
 fn glue_kind(k: u8) -> ds::GlueKind {
-    match k % 3 {
+    match k % 6 {
         0 => ds::GlueKind::Normal,
         1 => ds::GlueKind::ConditionalMath,
-        _ => ds::GlueKind::Math,
+        2 => ds::GlueKind::Math,
+        3 => ds::GlueKind::AlignedLeader,
+        4 => ds::GlueKind::CenteredLeader,
+        _ => ds::GlueKind::ExpandedLeader,
     }
 }
+
+#[derive(Debug)]
+struct OpaqueWhatsit(#[allow(dead_code)] u8);
+impl ds::Whatsit for OpaqueWhatsit {}
 
 fn build_list(c: &HpackCase) -> Vec<ds::Horizontal> {
     let n = c.glyphs.len();
@@ -262,6 +295,7 @@ fn build_list(c: &HpackCase) -> Vec<ds::Horizontal> {
                 .into(),
             ),
             Node::Penalty(p) => out.push(ds::Penalty(*p).into()),
+            Node::Whatsit(k) => out.push(ds::Horizontal::Whatsit(std::rc::Rc::new(OpaqueWhatsit(*k)))),
             Node::Disc { pre, post, replace } => {
                 out.push(
                     ds::Discretionary {
@@ -305,8 +339,10 @@ fn render_items(list: &[ds::Horizontal], items: &[Item]) -> String {
             H::VBox(_) => "vbox",
             H::Rule(_) => "rule",
             H::Kern(_) => "kern",
+            H::Glue(g) if !matches!(g.kind, ds::GlueKind::Normal | ds::GlueKind::ConditionalMath | ds::GlueKind::Math) => "leaders",
             H::Glue(_) => "glue",
             H::Penalty(_) => "penalty",
+            H::Whatsit(_) => "whatsit",
             H::Discretionary(d) => {
                 s.push_str(&format!("disc[{}|{}|{}]", d.pre_break.len(), d.post_break.len(), d.replace_count));
                 continue;
@@ -347,12 +383,136 @@ struct Shape {
     mixed: bool,
     cancel: bool,
     boundary: bool,
+    /// A box maximum is decided by a shift, by the fixed dimension of a half-running rule,
+    /// by a ligature, or clamps at 0 against negative candidates only.
+    dims: bool,
 }
 
-fn analyze(items: &[Item], p: &Packed, case: &mut Case) -> Shape {
+/// The two largest height (or depth) candidates of a list, with multiplicity.
+#[derive(Clone, Copy)]
+struct Top {
+    best: i64,
+    second: i64,
+}
+
+impl Top {
+    const NONE: i64 = i64::MIN;
+    fn new() -> Top {
+        Top { best: Top::NONE, second: Top::NONE }
+    }
+    fn push(&mut self, v: i64) {
+        if v <= model::NULL_FLAG {
+            return; // running dimension: no candidate
+        }
+        if v > self.best {
+            self.second = self.best;
+            self.best = v;
+        } else if v > self.second {
+            self.second = v;
+        }
+    }
+    /// Maximum over the candidates of all *other* items, given this item's candidate.
+    fn others(&self, v: i64) -> i64 {
+        if v > model::NULL_FLAG && v == self.best {
+            self.second
+        } else {
+            self.best
+        }
+    }
+    /// `v` alone decides the box dimension: it beats the floor 0 and every other item.
+    fn strict(&self, v: i64) -> bool {
+        v > 0 && v > self.others(v)
+    }
+}
+
+/// (height, depth) candidates an item offers to the box maxima (§653, §654, §656).
+fn candidates(it: &Item) -> Option<(i64, i64)> {
+    match *it {
+        Item::Char { h, d, .. } => Some((h, d)),
+        Item::Box { h, d, shift, .. } => Some((h - shift, d + shift)),
+        Item::Rule { h, d, .. } => Some((h, d)),
+        Item::Glue { leader: Some((h, d)), .. } => Some((h, d)),
+        _ => None,
+    }
+}
+
+fn analyze(list: &[ds::Horizontal], items: &[Item], p: &Packed, case: &mut Case) -> Shape {
     let mut sh = Shape::default();
     let mut present = [[0u32; 4]; 2]; // [stretch|shrink][order]
     let mut any_flex = false;
+    // Which item decides the height and the depth of the box.
+    let (mut th, mut td) = (Top::new(), Top::new());
+    for it in items {
+        if let Some((h, d)) = candidates(it) {
+            th.push(h);
+            td.push(d);
+        }
+    }
+    case.class_if(th.best != Top::NONE && th.best < 0 || td.best != Top::NONE && td.best < 0, "dims: height or depth clamps at 0 (every candidate negative)");
+    sh.dims |= th.best != Top::NONE && th.best < 0 || td.best != Top::NONE && td.best < 0;
+    for (node, it) in list.iter().zip(items) {
+        use ds::Horizontal as H;
+        match (node, *it) {
+            (H::HBox(_) | H::VBox(_), Item::Box { h, d, shift, .. }) => {
+                let vbox = matches!(node, H::VBox(_));
+                case.class(if vbox { "node:vbox" } else { "node:hbox" });
+                if shift != 0 {
+                    // Would the box dimensions differ had this box not been shifted?
+                    let without_h = th.others(h - shift).max(h).max(0);
+                    let without_d = td.others(d + shift).max(d).max(0);
+                    if without_h != p.height || without_d != p.depth {
+                        sh.dims = true;
+                        case.class(if vbox { "dims: the shift of a vbox decides the box height or depth" } else { "dims: the shift of an hbox decides the box height or depth" });
+                    }
+                }
+            }
+            (H::Rule(_), Item::Rule { h, d, .. }) => {
+                let (hr, dr) = (h <= model::NULL_FLAG, d <= model::NULL_FLAG);
+                case.class_if(!hr && dr, "node:rule height fixed, depth running");
+                case.class_if(hr && !dr, "node:rule height running, depth fixed");
+                case.class_if(hr && dr, "node:rule height and depth running");
+                if (!hr && dr && th.strict(h)) || (hr && !dr && td.strict(d)) {
+                    sh.dims = true;
+                    case.class("dims: the fixed dimension of a half-running rule is the strict box maximum");
+                }
+                case.class_if(!hr && !dr && (th.strict(h) || td.strict(d)), "dims: a fixed rule is the strict height or depth maximum");
+            }
+            (H::Ligature(_), Item::Char { h, d, .. }) => {
+                case.class("node:ligature");
+                if th.strict(h) || td.strict(d) {
+                    sh.dims = true;
+                    case.class("dims: a ligature is the strict height or depth maximum");
+                }
+            }
+            (H::Char(_), Item::Char { h, d, .. }) => {
+                case.class("node:char");
+                case.class_if(th.strict(h) || td.strict(d), "dims: a character is the strict height or depth maximum");
+            }
+            (H::Glue(g), Item::Glue { w, stretch, stretch_order, shrink, shrink_order, .. }) => {
+                if matches!(g.kind, ds::GlueKind::AlignedLeader | ds::GlueKind::CenteredLeader | ds::GlueKind::ExpandedLeader) {
+                    case.class_if(w != 0, "leaders: non-zero width counts in the natural width");
+                    let active = match p.glue_sign {
+                        Sign::Stretching => stretch_order == p.glue_order && stretch != 0,
+                        Sign::Shrinking => shrink_order == p.glue_order && shrink != 0,
+                        Sign::Normal => false,
+                    };
+                    case.class_if(active, "leaders: contribute to the total being set");
+                }
+                case.class(match g.kind {
+                    ds::GlueKind::Normal => "node:glue kind normal",
+                    ds::GlueKind::ConditionalMath => "node:glue kind conditional math",
+                    ds::GlueKind::Math => "node:glue kind math",
+                    ds::GlueKind::AlignedLeader => "node:glue kind aligned leader",
+                    ds::GlueKind::CenteredLeader => "node:glue kind centered leader",
+                    ds::GlueKind::ExpandedLeader => "node:glue kind expanded leader",
+                });
+            }
+            (H::Whatsit(_), _) => case.class("node:whatsit"),
+            (H::Penalty(_), _) => case.class("node:penalty"),
+            (H::Discretionary(_), _) => case.class("node:discretionary"),
+            _ => {}
+        }
+    }
     for it in items {
         match *it {
             Item::Glue { stretch, stretch_order, shrink, shrink_order, .. } => {
@@ -412,6 +572,7 @@ fn analyze(items: &[Item], p: &Packed, case: &mut Case) -> Shape {
     case.class_if(sh.mixed, "nontrivial: two orders on the active side");
     case.class_if(sh.cancel, "nontrivial: a present order has zero total");
     case.class_if(sh.boundary, "nontrivial: exact-boundary target");
+    case.class_if(sh.dims, "nontrivial: a box maximum decided by a shift, a half-running rule, a ligature or the 0 floor");
     case.class(match (p.excess > 0, p.excess < 0) {
         (true, _) => "excess > 0",
         (_, true) => "excess < 0",
@@ -430,6 +591,8 @@ fn analyze(items: &[Item], p: &Packed, case: &mut Case) -> Shape {
     }
     case.class_if(p.underfull_at(1000), "underfull at \\hbadness=1000");
     case.class_if(p.overfull_branch && !p.overfull, "too wide with zero shrinkability (unset)");
+    case.class_if(p.overfull && p.active_total < 0, "overfull on a negative total shrink");
+    case.class_if(p.overfull && p.total_stretch[0] != 0, "overfull with finite stretch present (ratio +1 would read as stretching)");
     sh
 }
 
@@ -457,6 +620,16 @@ fn flag_subsets(ctx: &Ctx) -> Vec<(Deviations, String)> {
         }
     }
     out
+}
+
+/// Node equality for the "list unchanged" check. `Horizontal::eq` is false for any two
+/// whatsits (they are `Rc<dyn Whatsit>`); `pack` is given clones of the same `Rc`s, so
+/// identity of the allocation is the right notion there.
+fn same_node(a: &ds::Horizontal, b: &ds::Horizontal) -> bool {
+    match (a, b) {
+        (ds::Horizontal::Whatsit(x), ds::Horizontal::Whatsit(y)) => std::ptr::eq(std::rc::Rc::as_ptr(x) as *const u8, std::rc::Rc::as_ptr(y) as *const u8),
+        _ => a == b,
+    }
 }
 
 /// Compare `HBox::pack` with the model on one list and target. Shared by every sub-check.
@@ -490,7 +663,17 @@ fn check_pack<F: boxworks::FontRepo>(
         }
     };
     // hpack returns the list it was given (list_ptr(r):=p) in a box that is not shifted.
-    if got.list.len() != list.len() || got.list.iter().zip(list).any(|(a, b)| a != b) {
+    // The one change TeX itself makes (§666) is tolerated: when it takes the overfull branch of
+    // §664 it may append the \overfullrule rule (running height and depth) to the list; the
+    // box dimensions were computed before. The property says nothing about that rule, so a
+    // future implementation of the crate's TODO(TeX.2021.666) must not alarm here.
+    let prefix_same = got.list.len() >= list.len() && got.list.iter().zip(list).all(|(a, b)| same_node(a, b));
+    let tail_ok = match &got.list[list.len().min(got.list.len())..] {
+        [] => true,
+        [ds::Horizontal::Rule(r)] => want.overfull_branch && r.height == ds::Rule::RUNNING && r.depth == ds::Rule::RUNNING,
+        _ => false,
+    };
+    if !prefix_same || !tail_ok {
         return Err(Verdict::Fail(format!("the packed box does not contain the input list unchanged\n{}", describe())));
     }
     if got.shift_amount != Scaled::ZERO {
@@ -533,7 +716,7 @@ fn oracle(ctx: &Ctx, c: &HpackCase, case: &mut Case) -> Verdict {
     if c.glyphs.is_empty() || c.palette.is_empty() || c.glyphs.len() > 26 {
         return Verdict::Skip("malformed case (no glyphs or palette)");
     }
-    let repo = SynthRepo { glyphs: c.glyphs.clone() };
+    let repo = SynthRepo { glyphs: c.glyphs.clone(), missing: c.missing.clone() };
     let list = build_list(c);
     let items = match model::items_from_ds(&repo, &list) {
         Ok(i) => i,
@@ -550,12 +733,22 @@ fn oracle(ctx: &Ctx, c: &HpackCase, case: &mut Case) -> Verdict {
         Base::Stretch(k) => p0.total_stretch[k as usize % 4],
         Base::Shrink(k) => p0.total_shrink[k as usize % 4],
     };
-    let delta = (t.sign.signum() as i64) * total + t.off as i64;
     let fits = |v: i64| v > i32::MIN as i64 && v <= i32::MAX as i64;
+    let (target, delta) = match t.abs {
+        // The requested dimension itself, as the user of \hbox to / spread gives it.
+        Some(w) if t.exact => (Target::Exact(w as i64), w as i64 - p0.natural_width),
+        Some(w) => (Target::Additional(w as i64), w as i64),
+        None => {
+            let delta = (t.sign.signum() as i64) * total + t.off as i64;
+            if !fits(delta) || !fits(p0.natural_width + delta) {
+                return Verdict::Skip("a sum exceeds 31 bits");
+            }
+            (if t.exact { Target::Exact(p0.natural_width + delta) } else { Target::Additional(delta) }, delta)
+        }
+    };
     if !fits(delta) || !fits(p0.natural_width + delta) {
         return Verdict::Skip("a sum exceeds 31 bits");
     }
-    let target = if t.exact { Target::Exact(p0.natural_width + delta) } else { Target::Additional(delta) };
     let Ok(want) = model::hpack(&items, target, Deviations::NONE) else {
         return Verdict::Skip("a sum exceeds 31 bits");
     };
@@ -567,7 +760,35 @@ fn oracle(ctx: &Ctx, c: &HpackCase, case: &mut Case) -> Verdict {
         "target: additional"
     });
     case.class_if(list.is_empty(), "empty list");
-    let shape = analyze(&items, &want, case);
+    let has_whatsit = list.iter().any(|n| matches!(n, ds::Horizontal::Whatsit(_)));
+    let shape = analyze(&list, &items, &want, case);
+    // Partial glyph metrics (FontRepo::width_height_depth's unwrap_or(0) arms).
+    for n in &list {
+        if let ds::Horizontal::Char(ds::Char { char, font }) | ds::Horizontal::Ligature(ds::Ligature { char, font, .. }) = n {
+            let (no_h, no_d) = (repo.lacks(*char, *font, 1), repo.lacks(*char, *font, 2));
+            case.class_if(no_h && !no_d, "char: font has no height for the glyph (0)");
+            case.class_if(!no_h && no_d, "char: font has no depth for the glyph (0)");
+            case.class_if(no_h && no_d, "char: font has neither height nor depth for the glyph (0, 0)");
+            case.class_if((no_h || no_d) && repo.get(*char, *font).map(|g| g[0] != 0).unwrap_or(false), "char: partial metrics, non-zero width still counts");
+        }
+    }
+    // Magnitudes beyond 2^24 (not exactly representable in an f32) up to TeX's 2^30−1.
+    const F32_EXACT: i64 = 1 << 24;
+    let big_item = items.iter().any(|it| match *it {
+        Item::Char { w, h, d } => [w, h, d].iter().any(|v| v.abs() > F32_EXACT),
+        Item::Box { w, h, d, shift } => [w, h, d, shift].iter().any(|v| v.abs() > F32_EXACT),
+        Item::Rule { w, h, d } => [w, h, d].iter().any(|v| *v > model::NULL_FLAG && v.abs() > F32_EXACT),
+        Item::Kern { w } => w.abs() > F32_EXACT,
+        Item::Glue { w, stretch, shrink, .. } => [w, stretch, shrink].iter().any(|v| v.abs() > F32_EXACT),
+        Item::Nothing => false,
+    });
+    case.class_if(big_item, "big: a single dimension beyond 2^24sp");
+    case.class_if(want.natural_width.abs() > F32_EXACT, "big: natural width beyond 2^24sp");
+    case.class_if(want.height > F32_EXACT || want.depth > F32_EXACT, "big: box height or depth beyond 2^24sp");
+    case.class_if(want.is_set() && !want.overfull && (want.excess.abs() > F32_EXACT || want.active_total.abs() > F32_EXACT), "big: glue set with excess or total beyond 2^24sp (exact ratio demanded)");
+    case.class_if(want.width.abs() >= (1 << 29), "big: box width at least 2^29sp");
+    case.class_if(want.width.abs() == (1 << 30) - 1, "big: box width = ±\\maxdimen");
+    case.class_if(t.abs.is_some(), "target: absolute dimension (independent of the list)");
     let describe = || {
         format!(
             "list: [{}]\ntarget: {} (natural width {}sp, excess {}sp)",
@@ -578,12 +799,12 @@ fn oracle(ctx: &Ctx, c: &HpackCase, case: &mut Case) -> Verdict {
             },
             want.natural_width,
             want.excess
-        )
+        ) + if has_whatsit { "\n(the list contains whatsit nodes: outside the property's literal quantifier; TeX §1360: hpack ignores them)" } else { "" }
     };
     case.note = Some(describe());
     case.classes.sort();
     case.classes.dedup();
-    let nontrivial = !items.is_empty() && (shape.mixed || shape.cancel || shape.boundary);
+    let nontrivial = !items.is_empty() && (shape.mixed || shape.cancel || shape.boundary || shape.dims);
     match check_pack(ctx, &repo, &list, &items, target, &want, &describe) {
         Ok(()) => Verdict::pass(nontrivial),
         Err(v) => v,
@@ -665,7 +886,7 @@ fn elem(boxy: u8) -> BoxedStrategy<Elem> {
 }
 
 fn glue_node(finite_only: bool) -> BoxedStrategy<Node> {
-    (dim(), amt(), order(finite_only), amt(), order(finite_only), 0u8..3).prop_map(|(w, st, sto, sh, sho, kind)| Node::Glue { w, st, sto, sh, sho, kind }).boxed()
+    (dim(), amt(), order(finite_only), amt(), order(finite_only), 0u8..6).prop_map(|(w, st, sto, sh, sho, kind)| Node::Glue { w, st, sto, sh, sho, kind }).boxed()
 }
 
 fn penalty() -> BoxedStrategy<Node> {
@@ -680,18 +901,19 @@ fn disc(boxy: u8) -> BoxedStrategy<Node> {
 }
 
 /// One or two nodes; the two-node form is an exactly cancelling pair of glue items.
-fn chunk(boxy: u8, finite_only: bool) -> BoxedStrategy<Vec<Node>> {
+fn chunk(boxy: u8, finite_only: bool, whatsits: bool) -> BoxedStrategy<Vec<Node>> {
     let (we, wg) = match boxy {
         0 => (5, 7),
         1 => (7, 5),
         _ => (8, 3),
     };
-    let single = prop_oneof![
+    let plain = prop_oneof![
         we => elem(boxy).prop_map(Node::E),
         wg => glue_node(finite_only),
         1 => penalty(),
         1 => disc(boxy),
     ];
+    let single = if whatsits { prop_oneof![7 => plain, 1 => any::<u8>().prop_map(Node::Whatsit)].boxed() } else { plain.boxed() };
     let pair = (dim(), dim(), amt(), order(finite_only), amt(), order(finite_only)).prop_map(|(w1, w2, st, sto, sh, sho)| {
         vec![Node::Glue { w: w1, st, sto, sh, sho, kind: 0 }, Node::Glue { w: w2, st: st.negated(), sto, sh: sh.negated(), sho, kind: 0 }]
     });
@@ -699,9 +921,51 @@ fn chunk(boxy: u8, finite_only: bool) -> BoxedStrategy<Vec<Node>> {
 }
 
 fn nodes(max_chunks: usize) -> BoxedStrategy<Vec<Node>> {
-    let list = |boxy: u8, finite_only: bool| proptest::collection::vec(chunk(boxy, finite_only), 0..=max_chunks).prop_map(|v| v.into_iter().flatten().collect::<Vec<Node>>());
-    // (no boxes/rules | everything | mostly boxes and rules) × (all four orders | finite glue only)
-    prop_oneof![6 => list(0, false), 2 => list(0, true), 5 => list(1, false), 1 => list(1, true), 2 => list(2, false)].boxed()
+    let list = |boxy: u8, finite_only: bool, whatsits: bool| proptest::collection::vec(chunk(boxy, finite_only, whatsits), 0..=max_chunks).prop_map(|v| v.into_iter().flatten().collect::<Vec<Node>>());
+    // (no boxes/rules | everything | mostly boxes and rules) × (all four orders | finite glue only),
+    // one mode with whatsits, one with dimensions up to TeX's 2^30−1.
+    prop_oneof![
+        6 => list(0, false, false),
+        2 => list(0, true, false),
+        5 => list(1, false, false),
+        1 => list(1, true, false),
+        2 => list(2, false, false),
+        1 => list(1, false, true),
+        1 => big_list(),
+    ]
+    .boxed()
+}
+
+// Dimensions in (2^24, 2^30): no longer exact in an f32, still legal in TeX (|dimen| < 2^30).
+const MAX_DIMEN: i32 = (1 << 30) - 1;
+const BIG: [i32; 8] = [MAX_DIMEN, (1 << 29) + 1, (1 << 29) - 1, (1 << 24) + 1, (1 << 25) + 3, (1 << 28) + 12345, (1 << 26) - 1, 3 * (1 << 28) + 1];
+
+fn big_pos() -> BoxedStrategy<i32> {
+    prop_oneof![5 => proptest::sample::select(BIG.to_vec()), 2 => (1i32 << 24)..=MAX_DIMEN, 1 => 0i32..=8].boxed()
+}
+
+fn big_dim() -> BoxedStrategy<i32> {
+    (big_pos(), prop_oneof![3 => Just(1i32), 1 => Just(-1i32)]).prop_map(|(v, s)| v * s).boxed()
+}
+
+fn big_amt() -> BoxedStrategy<Amt> {
+    prop_oneof![1 => Just(Amt::Zero), 4 => big_dim().prop_map(Amt::Raw), 2 => amt()].boxed()
+}
+
+/// At most four nodes so that most sums stay inside 31 bits (the rest is skipped and counted).
+fn big_list() -> BoxedStrategy<Vec<Node>> {
+    let node = prop_oneof![
+        2 => (big_dim(), 0u8..4).prop_map(|(w, kind)| Node::E(Elem::Kern { w, kind })),
+        2 => (proptest::option::weighted(0.7, big_pos()), big_dim(), proptest::option::weighted(0.7, big_pos())).prop_map(|(h, w, d)| Node::E(Elem::Rule { h, w, d })),
+        2 => (big_pos(), big_dim(), big_pos(), big_dim(), any::<u8>(), any::<bool>()).prop_map(|(h, w, d, shift, fill, v)| {
+            let b = BoxSpec { h, w, d, shift, fill };
+            Node::E(if v { Elem::VBox(b) } else { Elem::HBox(b) })
+        }),
+        4 => (big_dim(), big_amt(), order(false), big_amt(), order(false), 0u8..6).prop_map(|(w, st, sto, sh, sho, kind)| Node::Glue { w, st, sto, sh, sho, kind }),
+        1 => (0..N_GLYPHS as u8).prop_map(|g| Node::E(Elem::Char(g))),
+        1 => glue_node(true),
+    ];
+    proptest::collection::vec(node, 0..=4).boxed()
 }
 
 fn target_spec() -> BoxedStrategy<TargetSpec> {
@@ -719,7 +983,9 @@ fn target_spec() -> BoxedStrategy<TargetSpec> {
         2 => -(1i32 << 20)..=(1i32 << 20),
         1 => dim(),
     ];
-    (base, sign, off, any::<bool>()).prop_map(|(base, sign, off, exact)| TargetSpec { base, sign, off, exact }).boxed()
+    // 1 in 12: the dimension is given absolutely (huge targets, \hbox to\maxdimen, to -\maxdimen).
+    let abs = prop_oneof![11 => Just(None), 1 => prop_oneof![3 => big_dim(), 1 => Just(MAX_DIMEN), 1 => Just(-MAX_DIMEN), 1 => dim()].prop_map(Some)];
+    (base, sign, off, any::<bool>(), abs).prop_map(|(base, sign, off, exact, abs)| TargetSpec { base, sign, off, exact, abs }).boxed()
 }
 
 fn palette() -> BoxedStrategy<Vec<i32>> {
@@ -732,8 +998,17 @@ fn glyphs() -> BoxedStrategy<Vec<[i32; 3]>> {
     proptest::collection::vec((w, hd(), hd()).prop_map(|(w, h, d)| [w, h, d]), N_GLYPHS).boxed()
 }
 
+/// Per glyph: bit 0 = no height, bit 1 = no depth in the font. Most fonts are complete.
+fn missing() -> BoxedStrategy<Vec<u8>> {
+    prop_oneof![
+        3 => Just(vec![]),
+        1 => proptest::collection::vec(prop_oneof![3 => Just(0u8), 1 => Just(1u8), 1 => Just(2u8), 1 => Just(3u8)], N_GLYPHS),
+    ]
+    .boxed()
+}
+
 pub fn case_strategy(max_chunks: usize) -> impl Strategy<Value = HpackCase> {
-    (glyphs(), palette(), nodes(max_chunks), target_spec()).prop_map(|(glyphs, palette, nodes, target)| HpackCase { glyphs, palette, nodes, target })
+    (glyphs(), missing(), palette(), nodes(max_chunks), target_spec()).prop_map(|(glyphs, missing, palette, nodes, target)| HpackCase { glyphs, missing, palette, nodes, target })
 }
 
 // -------------------------------------------------------------------------------------
@@ -777,7 +1052,74 @@ fn small_case(mut i: u64) -> HpackCase {
             kind: 0,
         });
     }
-    HpackCase { glyphs: vec![[1, 1, 1]], palette: vec![1], nodes, target: TargetSpec { base: Base::StretchTop, sign: 0, off, exact } }
+    HpackCase { glyphs: vec![[1, 1, 1]], missing: vec![], palette: vec![1], nodes, target: TargetSpec { base: Base::StretchTop, sign: 0, off, exact, abs: None } }
+}
+
+// -------------------------------------------------------------------------------------
+// Exhaustive small scope for the box dimensions: every list of up to L items over
+// rules (height, depth ∈ {running, 0, 1, 2}sp), hboxes and vboxes (height, depth ∈ {−1, 0, 2}sp,
+// shift ∈ {0, ±1, ±3}sp), characters and ligatures (height, depth ∈ {0, 1}sp) and two
+// characters whose font lacks the height resp. the depth, packed to the natural width
+// (as `spread 0pt` and as `to <natural>`). Independent of random weights this reaches:
+// half-running rules whose fixed dimension is the box maximum, shifts that decide the
+// maximum, hbox vs vbox, ligature vs character, all-negative candidates (floor 0).
+
+const DIMS_GLYPHS: [[i32; 3]; 6] = [[4, 0, 0], [4, 0, 1], [4, 1, 0], [4, 1, 1], [4, 3, 3], [4, 3, 3]];
+const DIMS_MISSING: [u8; 6] = [0, 0, 0, 0, 1, 2];
+
+fn dims_elems() -> Vec<Elem> {
+    let mut out = vec![];
+    let rd = [None, Some(0), Some(1), Some(2)];
+    for h in rd {
+        for d in rd {
+            out.push(Elem::Rule { h, w: 1, d });
+        }
+    }
+    for vbox in [false, true] {
+        for h in [-1, 0, 2] {
+            for d in [-1, 0, 2] {
+                for shift in [0, 1, -1, 3, -3] {
+                    let b = BoxSpec { h, w: 2, d, shift, fill: 0 };
+                    out.push(if vbox { Elem::VBox(b) } else { Elem::HBox(b) });
+                }
+            }
+        }
+    }
+    for g in 0..6u8 {
+        out.push(Elem::Char(g));
+    }
+    for g in 0..4u8 {
+        out.push(Elem::Lig { glyph: g, orig: "ab".into(), left: false, right: false });
+    }
+    out
+}
+
+fn dims_total(max_len: u32) -> u64 {
+    let n = dims_elems().len() as u64;
+    (0..=max_len).map(|l| n.pow(l)).sum::<u64>() * 2
+}
+
+fn dims_case(elems: &[Elem], mut i: u64) -> HpackCase {
+    let exact = i % 2 == 1;
+    i /= 2;
+    let n = elems.len() as u64;
+    let mut len = 0u32;
+    while i >= n.pow(len) {
+        i -= n.pow(len);
+        len += 1;
+    }
+    let mut nodes = vec![];
+    for _ in 0..len {
+        nodes.push(Node::E(elems[(i % n) as usize].clone()));
+        i /= n;
+    }
+    HpackCase {
+        glyphs: DIMS_GLYPHS.to_vec(),
+        missing: DIMS_MISSING.to_vec(),
+        palette: vec![1],
+        nodes,
+        target: TargetSpec { base: Base::StretchTop, sign: 0, off: 0, exact, abs: None },
+    }
 }
 
 // -------------------------------------------------------------------------------------
@@ -814,15 +1156,20 @@ fn collect_hboxes(list: &[ds::Horizontal], out: &mut Vec<ds::HBox>) {
     }
 }
 
-fn load_goldens(ctx: &Ctx) -> Vec<GoldenBox> {
+/// Every hbox of the golden files. Files the harness cannot use (unreadable, not a
+/// horizontal list in Box language) are skipped and named in the second result: they say
+/// nothing about `HBox::pack`, and code outside C15's anchors (the Box-language parser) must
+/// not turn into a C15 alarm.
+fn load_goldens(ctx: &Ctx) -> (Vec<GoldenBox>, Vec<String>) {
     let root = repo_root();
+    let mut skipped: Vec<String> = vec![];
     let mut files: Vec<String> = vec![];
     let dir = format!("{root}/crates/boxworks-knuthplass/testdata");
     let mut names: Vec<String> = match std::fs::read_dir(&dir) {
         Ok(rd) => rd.filter_map(|e| e.ok()).map(|e| e.file_name().to_string_lossy().to_string()).filter(|n| n.ends_with("_want.txt")).collect(),
         Err(e) => {
-            eprintln!("C15: cannot read golden directory {dir}: {e}");
-            std::process::exit(2);
+            skipped.push(format!("{dir}: cannot read the directory: {e}"));
+            vec![]
         }
     };
     names.sort();
@@ -843,24 +1190,35 @@ fn load_goldens(ctx: &Ctx) -> Vec<GoldenBox> {
         let text = match std::fs::read_to_string(&path) {
             Ok(t) => t,
             Err(e) => {
-                eprintln!("C15: cannot read golden {path}: {e}");
-                std::process::exit(2);
+                skipped.push(format!("{f}: cannot read: {e}"));
+                continue;
             }
         };
-        let list = match boxworks::lang::parse_horizontal_list(&text) {
-            Ok(l) => l,
-            Err(e) => {
-                eprintln!("C15: golden {path} does not parse: {} errors", e.len());
-                std::process::exit(2);
+        // The parser is not C15's subject: a panic or an error in it skips the file.
+        let list = match panics::catch(|| boxworks::lang::parse_horizontal_list(&text)) {
+            Ok(Ok(l)) => l,
+            Ok(Err(e)) => {
+                skipped.push(format!("{f}: not a horizontal list in Box language ({} errors)", e.len()));
+                continue;
+            }
+            Err(info) => {
+                skipped.push(format!("{f}: the Box-language parser panicked at {}", info.site()));
+                continue;
             }
         };
         let mut boxes = vec![];
         collect_hboxes(&list, &mut boxes);
         for (i, b) in boxes.into_iter().enumerate() {
-            out.push(GoldenBox { file: f.clone(), index: i as u32, source: format!("{}", ds::Horizontal::HBox(b)) });
+            match panics::catch(|| format!("{}", ds::Horizontal::HBox(b))) {
+                Ok(source) => out.push(GoldenBox { file: f.clone(), index: i as u32, source }),
+                Err(_) => skipped.push(format!("{f}#{i}: the box cannot be printed in Box language")),
+            }
         }
     }
-    out
+    for s in &skipped {
+        eprintln!("C15: golden skipped: {s}");
+    }
+    (out, skipped)
 }
 
 /// `round(unity·g)` as TeX §186 prints the glue set (half away from zero, capped at 20000).
@@ -875,27 +1233,36 @@ fn printed_glue_set(p: &Packed) -> i64 {
 }
 
 fn golden_oracle(ctx: &Ctx, tfm: &[u8], g: &GoldenBox, case: &mut Case) -> Verdict {
-    let list = match boxworks::lang::parse_horizontal_list(&g.source) {
-        Ok(l) => l,
-        Err(_) => return Verdict::Fail(format!("golden box {}#{} does not parse", g.file, g.index)),
+    // Anything the harness cannot model is skipped (and counted), never failed: only a box
+    // that the model *can* describe and TeX printed differently is a calibration failure.
+    let list = match panics::catch(|| boxworks::lang::parse_horizontal_list(&g.source)) {
+        Ok(Ok(l)) => l,
+        _ => return Verdict::Skip("golden box does not re-parse from its Box-language form (not C15's subject)"),
     };
     let Some(ds::Horizontal::HBox(gold)) = list.into_iter().next() else {
-        return Verdict::Fail(format!("golden box {}#{} is not an hbox", g.file, g.index));
+        return Verdict::Skip("golden box does not re-parse from its Box-language form (not C15's subject)");
     };
+    use ds::Horizontal as H;
+    if gold.list.iter().any(|n| matches!(n, H::Mark(_) | H::Insertion(_) | H::Adjust(_) | H::Math(_))) {
+        return Verdict::Skip("golden box contains mark/insertion/adjust/math nodes (HBox::pack documents todo!() there)");
+    }
+    if gold.list.iter().any(|n| matches!(n, H::Char(ds::Char { font, .. }) | H::Ligature(ds::Ligature { font, .. }) if *font != 0)) {
+        return Verdict::Skip("golden box uses a font other than cmr10 (the only one the harness registers)");
+    }
     let mut repo: boxworks_text::TfmFontRepo = Default::default();
-    let Ok(file) = tfm::File::deserialize(tfm).0 else {
-        return Verdict::Fail("cmr10.tfm does not load".into());
+    let Ok(Ok(file)) = panics::catch(|| tfm::File::deserialize(tfm).0) else {
+        return Verdict::Skip("cmr10.tfm does not load (not C15's subject)");
     };
     repo.register_font(0, file);
-    let items = match model::items_from_ds(&repo, &gold.list) {
-        Ok(i) => i,
-        Err(e) => return Verdict::Fail(format!("golden box {}#{}: {}", g.file, g.index, e.0)),
+    let items = match panics::catch(|| model::items_from_ds(&repo, &gold.list)) {
+        Ok(Ok(i)) => i,
+        _ => return Verdict::Skip("golden box has a character cmr10 lacks"),
     };
     let target = Target::Exact(gold.width.0 as i64);
     let Ok(want) = model::hpack(&items, target, Deviations::NONE) else {
-        return Verdict::Fail("overflow on a golden box".into());
+        return Verdict::Skip("a sum exceeds 31 bits");
     };
-    let shape = analyze(&items, &want, case);
+    let shape = analyze(&gold.list, &items, &want, case);
     let describe = || format!("golden {}#{}: [{}] to {}sp", g.file, g.index, render_items(&gold.list, &items), gold.width.0);
     case.note = Some(describe());
     case.classes.sort();
@@ -912,18 +1279,23 @@ fn golden_oracle(ctx: &Ctx, tfm: &[u8], g: &GoldenBox, case: &mut Case) -> Verdi
     if gold_set_printed && model::order_index(gold.glue_order) != want.glue_order {
         diffs.push(format!("order model {} TeX {:?}", model::order_name(want.glue_order), gold.glue_order));
     }
-    if gold.glue_ratio.den != Scaled::ONE {
-        diffs.push(format!("golden ratio has denominator {}", gold.glue_ratio.den.0));
-    } else if (printed_glue_set(&want) - (gold.glue_ratio.num.0 as i64).abs()).abs() > 1 + (printed_glue_set(&want) >> 22) {
+    // The golden's glue set as TeX printed it, in scaled units (round(unity·|num/den|)): the
+    // Box-language parser is free to choose num and den (today den = unity).
+    if gold.glue_ratio.den.0 == 0 {
+        return Verdict::Skip("golden box has a glue ratio with denominator 0 (parser's representation, not C15's subject)");
+    }
+    let (gn, gd) = ((gold.glue_ratio.num.0 as i128).abs(), (gold.glue_ratio.den.0 as i128).abs());
+    let gold_printed = ((2 * 65536 * gn + gd) / (2 * gd)) as i64;
+    if (printed_glue_set(&want) - gold_printed).abs() > 1 + (printed_glue_set(&want) >> 22) {
         // TeX holds glue_set in a (single-precision) float, so large ratios are printed with
         // a relative error of about 2^-24; the tolerance is 1 unit + 2^-22 relative.
-        diffs.push(format!("glue set model {}/{} prints as {} (scaled), TeX printed {}", want.set_num, want.set_den, printed_glue_set(&want), gold.glue_ratio.num.0));
+        diffs.push(format!("glue set model {}/{} prints as {} (scaled), TeX printed {}", want.set_num, want.set_den, printed_glue_set(&want), gold_printed));
     }
     if !diffs.is_empty() {
         return Verdict::Fail(format!("MODEL CALIBRATION FAILURE (the reference hpack disagrees with a TeX-generated golden): {}\n{}", diffs.join("; "), describe()));
     }
     // 2. implementation against model
-    let nontrivial = !items.is_empty() && (shape.mixed || shape.cancel || shape.boundary);
+    let nontrivial = !items.is_empty() && (shape.mixed || shape.cancel || shape.boundary || shape.dims);
     match check_pack(ctx, &repo, &gold.list, &items, target, &want, &describe) {
         Ok(()) => Verdict::pass(nontrivial),
         Err(v) => v,
@@ -934,37 +1306,58 @@ fn golden_oracle(ctx: &Ctx, tfm: &[u8], g: &GoldenBox, case: &mut Case) -> Verdi
 
 pub fn run(ctx: &Ctx) {
     ctx.rule(
-        "cases = horizontal lists of characters and ligatures (synthetic font: 6 glyphs in 3 fonts with generated width/height/depth), kerns of all kinds, rules (fixed and running height/depth), nested hboxes/vboxes with zero, positive and negative shifts, penalties, discretionaries (followed by their replace nodes) and glue whose stretch and shrink have all four orders and positive, zero and negative amounts drawn from a small per-case palette (so +a −a cancellations, 0fil and sums occur often; cancelling pairs are also inserted explicitly) × a target = natural + s·T + off with s ∈ {0,±1}, T a per-order stretch or shrink total, off ∈ {0,±1sp,random}, requested as Exact or Additional; plus an exhaustive enumeration of all lists of ≤3 (thorough: ≤4) glue items over {0,1,−1,2}sp × 4 orders with every excess in −5..5sp, and every hbox of the repository's TeX-generated goldens. HBox::pack is compared with a transcription of TeX §649–667 (per-order totals, i64, exact rational glue set). non-trivial = non-empty list and (two different orders present on the side being set, or an order that is present has total zero, or an exact-boundary target: excess ∈ {0,±1sp} with flexible glue, or |excess| within 1sp of the total being set); distinct = by case value",
+        "cases = horizontal lists of characters and ligatures (synthetic font: 6 glyphs in 3 fonts with generated width/height/depth; in a quarter of the cases some glyphs have no height and/or no depth in the font), kerns of all kinds, rules (fixed, half-running and running height/depth), nested hboxes/vboxes with zero, positive and negative shifts, penalties, discretionaries (followed by their replace nodes) and glue of all six kinds (normal, conditional math, math, aligned/centered/expanded leaders) whose stretch and shrink have all four orders and positive, zero and negative amounts drawn from a small per-case palette (so +a −a cancellations, 0fil and sums occur often; cancelling pairs are also inserted explicitly) × a target = natural + s·T + off with s ∈ {0,±1}, T a per-order stretch or shrink total, off ∈ {0,±1sp,random}, or (1 in 12) an absolute dimension up to ±(2^30−1)sp, requested as Exact or Additional; one list mode in 18 has ≤4 nodes with dimensions up to 2^30−1sp (beyond f32 exactness), one in 18 contains whatsits; plus an exhaustive enumeration of all lists of ≤3 (thorough: ≤4) glue items over {0,1,−1,2}sp × 4 orders with every excess in −5..5sp (small_scope), an exhaustive enumeration of all lists of ≤2 (thorough: ≤3) items over 16 rules (h,d ∈ {running,0,1,2}sp), 90 hboxes/vboxes (h,d ∈ {−1,0,2}sp, shift ∈ {0,±1,±3}sp), 6 characters (two with partial metrics) and 4 ligatures at the natural width (dims_small), and every hbox of the repository's TeX-generated goldens. HBox::pack is compared with a transcription of TeX §649–667 (per-order totals, i64, exact rational glue set). non-trivial = non-empty list and (two different orders present on the side being set, or an order that is present has total zero, or an exact-boundary target: excess ∈ {0,±1sp} with flexible glue, or |excess| within 1sp of the total being set, or a box maximum that is decided by the shift of a nested box, by the fixed dimension of a half-running rule, by a ligature, or by the 0 floor against negative candidates only); distinct = by case value",
     );
-    ctx.assume("mark, insertion, adjust and math nodes are not generated: HBox::pack is documented todo!() on them and the property's quantifier does not list them; whatsits and leader glue (ds::Glue has no leader box) are not generated either");
-    ctx.assume("every character node refers to a glyph the font repository knows (TeX never builds a char node for a missing character); a rule's width is never running in an hlist (TeX §138)");
-    ctx.assume("individual dimensions are at most 2^24sp (2^25 for shifts combined with heights) and lists have at most ~70 nodes, so every sum TeX forms fits in 31 bits (TeX's own arithmetic is undefined beyond); cases violating this would be skipped and counted");
-    ctx.assume("the sign convention of GlueRatio is not part of the property: |ratio| is compared exactly and, unless the box is overfull, the signed fill identity natural·den + num·total = width·den is required (the implementation reports +1 for an overfull box and excess/total otherwise)");
+    ctx.assume("mark, insertion, adjust and math nodes are not generated: HBox::pack is documented todo!() on them and the property's quantifier does not list them");
+    ctx.assume("leader glue is generated with all three leader kinds, but ds::Glue carries no leader box: TeX §656's 'leader box height/depth count' has nothing to apply to, so leader glue must behave exactly like ordinary glue (width and stretch/shrink totals)");
+    ctx.assume("whatsit nodes (one list mode in 18) are outside the property's literal quantifier; TeX §1360 determines them (hpack does nothing) and HBox::pack documents the same, so they are demanded to be invisible; a failure message names the whatsits so that it can be judged");
+    ctx.assume("every character node refers to a glyph whose width the font repository knows (TeX never builds a char node for a missing character); a glyph without height or depth in the repository has height/depth 0, as FontRepo::width_height_depth documents (a TFM's height/depth index 0 is 0pt); a rule's width is never running in an hlist (TeX §138)");
+    ctx.assume("individual dimensions are below 2^30sp in absolute value (TeX's limit for a dimension; 2^24sp outside the big list mode and the absolute targets) and every sum TeX forms must fit in 31 bits (TeX's own arithmetic is undefined beyond): cases violating this are skipped and counted");
+    ctx.assume("the glue ratio is demanded as the exact rational the crate documents (GlueRatio: 'a real ratio: a numerator and a denominator'), also for dimensions beyond 2^24sp where TeX's own float glue_set is only approximate: |num/den| = |excess/total| exactly");
+    ctx.assume("ds::HBox has no glue_sign field; the sign of the ratio is its only carrier. The convention-free reading is demanded: the set width natural + ratio·(total being set) equals the box width when TeX sets the glue and the box is not overfull, and equals natural − total shrink when it is overfull (ratio −1: TeX's glue_set=1.0 with glue_sign=shrinking, printed `glue set - 1.0`, which boxworks::tex::parse_glue_set maps to a negative numerator, as HBox::pack itself does for every other shrinking box). With a negative total the sign of the ratio is the opposite of what TeX's glue_sign would suggest; that follows from the representation and is accepted");
     ctx.assume("an unset box must have glue order normal as in TeX (§658/§664 set glue_order:=o with o=normal when every total is zero)");
+    ctx.assume("the packed list must be the input list; the only tolerated change is TeX's own (§666): one trailing rule with running height and depth when TeX takes the overfull branch of §664");
 
-    // Calibration on goldens.
-    let tfm_path = format!("{}/crates/tfm/corpus/computer-modern/cmr10.tfm", repo_root());
-    let tfm = match std::fs::read(&tfm_path) {
-        Ok(b) => b,
-        Err(e) => {
-            eprintln!("C15: cannot read {tfm_path}: {e}");
-            std::process::exit(2);
-        }
-    };
     // Self-test knob (sensitivity experiments only): VP_C15_ONLY=<sub-check> runs just that
     // sub-check when generating, so that each generator's detection power can be measured alone.
     let only = if ctx.is_generate() { std::env::var("VP_C15_ONLY").ok() } else { None };
+    if let Some(o) = &only {
+        eprintln!("C15: VP_C15_ONLY={o}: only this sub-check runs (self-test knob; the evidence of this run is incomplete)");
+        ctx.assume("SELF-TEST RUN: VP_C15_ONLY was set, only one sub-check ran");
+    }
     let enabled = |sub: &str| only.as_deref().map(|o| o == sub).unwrap_or(true);
 
+    // Calibration on goldens. Unusable files are skipped and listed in the evidence.
     if enabled("golden_boxes") {
-        let goldens = if ctx.is_generate() { load_goldens(ctx) } else { vec![] };
-        run_list(ctx, "golden_boxes", goldens, |g: &GoldenBox, case| golden_oracle(ctx, &tfm, g, case));
+        let tfm_path = format!("{}/crates/tfm/corpus/computer-modern/cmr10.tfm", repo_root());
+        match std::fs::read(&tfm_path) {
+            Ok(tfm) => {
+                let (goldens, skipped) = if ctx.is_generate() { load_goldens(ctx) } else { (vec![], vec![]) };
+                run_list(ctx, "golden_boxes", goldens, |g: &GoldenBox, case| golden_oracle(ctx, &tfm, g, case));
+                if ctx.is_generate() {
+                    ctx.extra("golden_boxes", "files_skipped", serde_json::json!(skipped));
+                }
+            }
+            Err(e) => {
+                eprintln!("C15: golden calibration skipped: cannot read {tfm_path}: {e}");
+                if ctx.is_generate() {
+                    ctx.extra("golden_boxes", "files_skipped", serde_json::json!([format!("{tfm_path}: {e} (whole sub-check skipped)")]));
+                }
+            }
+        }
     }
 
-    // Exhaustive small scope.
+    // Exhaustive small scope: glue.
     if enabled("small_scope") {
         let max_len = ctx.tier.pick(3u32, 4u32);
         run_indexed(ctx, "small_scope", small_total(max_len), true, small_case, |c: &HpackCase, case| oracle(ctx, c, case));
+    }
+
+    // Exhaustive small scope: box dimensions.
+    if enabled("dims_small") {
+        let max_len = ctx.tier.pick(2u32, 3u32);
+        let elems = dims_elems();
+        run_indexed(ctx, "dims_small", dims_total(max_len), true, |i| dims_case(&elems, i), |c: &HpackCase, case| oracle(ctx, c, case));
     }
 
     // Random lists.
